@@ -1341,6 +1341,8 @@ class Corr:
         return self * y
 
     def __rtruediv__(self, y):
+        if isinstance(y, CObs):
+            return self ** (-1) * y
         return (self / y) ** (-1)
 
     @property
